@@ -220,6 +220,7 @@ void ExecImpl::op_call(const Op& op) {
   catch (fatal_report const&) { o.outcome = OC_THREW_FATAL; }
   catch (clause_fault const&) { o.outcome = OC_THREW_FAULT; }
   catch (std::runtime_error const& ex) { o.outcome = OC_THREW_STD; o.sval = ex.what(); }
+  catch (sim_error const& ex) { o.outcome = OC_THREW_STD; o.sval = "user " + ex.text; }
   catch (std::logic_error const& ex) { o.outcome = OC_THREW_LOGIC; o.sval = ex.what(); }
   catch (int v) { o.outcome = OC_THREW_INT; o.value = v; }
   catch (...) { o.outcome = OC_THREW_OTHER; }
@@ -392,13 +393,13 @@ void ExecImpl::op_call(const Op& op) {
         fail("C08", "action_order", os.str());
         return;
       }
-      bool lr = c.kind == 'S' ? d.se_lr[c.k] : (d.rk == RK_LRVAL || d.rk == RK_LRSTR || d.rk == RK_LRSTR_VAR || d.rk == RK_LRPAIR_VAR || d.rk == RK_REF_PARAM || d.rk == RK_REF_CELL || d.rk == RK_CREF_CELL);
+      bool lr = c.kind == 'S' ? d.se_lr[c.k] : (d.rk == RK_LRVAL || d.rk == RK_LRSTR || d.rk == RK_LRSTR_VAR || d.rk == RK_LRPAIR_VAR || d.rk == RK_LRTHROW_VAR || d.rk == RK_REF_PARAM || d.rk == RK_REF_CELL || d.rk == RK_CREF_CELL);
       long wantsnap = lr ? c.msnap : e.snap0;
       if (c.val != wantsnap) {
         fail("C09", "capture_time", std::string(lr ? "LR_ " : "plain ") + "clause " + c.kind + std::to_string(c.k) + " of " + describe_exp(cand) + " saw local = " + std::to_string(c.val) + ", expected " + std::to_string(wantsnap) + " (value at creation " + std::to_string(e.snap0) + ", when the clause ran " + std::to_string(c.msnap) + ")");
         return;
       }
-      if (c.kind == 'S' || (d.rk != RK_THROW_STD && d.rk != RK_THROW_INT)) {
+      if (c.kind == 'S' || (d.rk != RK_THROW_STD && d.rk != RK_THROW_INT && d.rk != RK_LRTHROW_VAR)) {
         const void* wantaddr = (fn == FN_R || fn == FN_K) ? static_cast<const void*>(&argcell) : fn == FN_S ? static_cast<const void*>(&strarg) : fn == FN_U ? static_cast<const void*>(tracked) : fn == FN_V ? static_cast<const void*>(&vecarg) : nullptr;
         if (wantaddr && c.a1 != wantaddr) { fail("C09", "alias", std::string("_1 in clause ") + c.kind + std::to_string(c.k) + " of " + describe_exp(cand) + " does not alias the caller's argument"); return; }
         if (!wantaddr) { if (seen_a1 && c.a1 != seen_a1) { fail("C09", "alias_stable", "_1 has different addresses in different clauses of one call"); return; } seen_a1 = c.a1; }
@@ -421,6 +422,8 @@ void ExecImpl::op_call(const Op& op) {
     fail("C09", "local_modified", "the local named in LR_RETURN of " + describe_exp(cand) + " is '" + rexps[static_cast<size_t>(cand)].inst->str + "' after the call, it was '" + std::to_string(1000 + cand) + "'"); return; }
   if (d.rk == RK_LRPAIR_VAR && rexps[static_cast<size_t>(cand)].inst && rexps[static_cast<size_t>(cand)].inst->pr != std::make_pair(1000 + cand, cand)) {
     fail("C09", "local_modified", "the local named in LR_RETURN of " + describe_exp(cand) + " was changed by the call"); return; }
+  if (d.rk == RK_LRTHROW_VAR && rexps[static_cast<size_t>(cand)].inst && rexps[static_cast<size_t>(cand)].inst->exc.text != "inst " + std::to_string(cand)) {
+    fail("C08,C09", "local_modified", "the exception object named in LR_THROW of " + describe_exp(cand) + " holds '" + rexps[static_cast<size_t>(cand)].inst->exc.text + "' after the call: THROW must throw a copy of it"); return; }
   // outcome
   {
     int wo = OC_NONE; long wv = 0; std::string ws; const void* wa = nullptr;
@@ -453,6 +456,7 @@ void ExecImpl::op_call(const Op& op) {
         break;
       }
       case RK_THROW_STD: wo = OC_THREW_STD; ws = "inst " + std::to_string(cand); break;
+      case RK_LRTHROW_VAR: wo = OC_THREW_STD; ws = "user inst " + std::to_string(cand); break;   // a copy of the local: the same text on every call
       case RK_THROW_INT: wo = OC_THREW_INT; wv = cand; break;
     }
     bool ok = o.outcome == wo;
